@@ -546,6 +546,25 @@ class Sched:
 # one run (inside the forked child)
 # ---------------------------------------------------------------------------
 
+def interp_state():
+    """Process-global interpreter settings a library call has no business leaving changed: code that
+    toggles one of them around its own work is safe serially and races with itself in threads."""
+    import decimal
+    import gc
+    import locale
+    return {
+        "recursionlimit": sys.getrecursionlimit(),
+        "switchinterval": sys.getswitchinterval(),
+        "warnings.filters": [(f[0], getattr(f[2], "__name__", str(f[2]))) for f in warnings.filters],
+        "gc": (gc.isenabled(), gc.get_threshold()),
+        "decimal.prec": decimal.getcontext().prec,
+        "locale": locale.setlocale(locale.LC_ALL),
+        "cwd": os.getcwd(),
+        "stack_size": threading.stack_size(),
+        "int_max_str_digits": sys.get_int_max_str_digits(),
+    }
+
+
 def run(sf, spec):
     """spec: dict(table=K, threads=[[call, ...], ...], policy=..., seed=str,
     explicit=None|{...}, budget=int, probes=[call, ...]) -> record."""
@@ -578,6 +597,7 @@ def run(sf, spec):
             _tl.tid = None
             S.thread_exit(tid)
 
+    state0 = interp_state()
     threads = [threading.Thread(target=body, args=(i,), daemon=True) for i in range(n)]
     for t in threads:
         t.start()
@@ -591,6 +611,8 @@ def run(sf, spec):
         for t in threads:
             t.join(timeout=10.0)
     _S = None
+    state1 = interp_state() if S.outcome == "ok" else state0
+    state_diff = {k: [state0[k], state1[k]] for k in state0 if state0[k] != state1[k]}
     # after quiescence: serial probes in the same (now warm, possibly corrupted) process
     after = []
     if S.outcome == "ok":
@@ -606,7 +628,7 @@ def run(sf, spec):
         "lock_ops": S.lock_ops, "late": S.late, "window_switches": S.window_switches,
         "overlap": S.overlap, "sites": sorted(S.sites), "miss_calls": S.miss_calls,
         "double_miss": S.double_miss, "double_aug": S.double_aug, "stalls_fired": S.stalls_fired, "shared_switches": S.shared_switches,
-        "digest": h.hexdigest(),
+        "digest": h.hexdigest(), "state_diff": state_diff,
     }
 
 
